@@ -1,29 +1,92 @@
 (* C15 - section outputs keep the screen equal to the stacked section contents.
-   screen w st = the rows of every section's content lines (each wrapped at width w by the terminal:
-   fill w [] line), in creation order, followed by the empty row the cursor stands in. *)
-From Clikit Require Import Base.Prelude Base.Res Base.Term Model.Section Proofs.TermLemmas Proofs.SectionLemmas.
+   The texts are MARKUP and the sections are indented (Model/Section.v): a text is measured by its visible length
+   (remove_format), written through the formatter (SGR sequences on the stream), kept as raw indented markup.
+     vis sty l           the visible text of a content line l (the undecorated formatter on l, empty style stack)
+     stacked w sty st    the rows of every section's content lines, in creation order: fill w [] (vis sty l) for each line
+     screen w sty st     these rows, followed by the empty row the cursor stands in
+   GOOD MARKUP (good_lineb, a check that can be run; the harness decides it independently and compares): a line without
+   ESC and tab that does not end with a backslash, has no tag right after a backslash, and that the undecorated formatter
+   accepts from an empty style stack and leaves with an empty style stack (so no tag spans a line break).
+   good_opsb sty ops: every line of every text written by ops is good markup (whatever the indentations). *)
+From Clikit Require Import Base.Prelude Base.Res Base.Term Model.Conv Model.Markup Model.Section
+  Proofs.TermLemmas Proofs.MarkupLemmas Proofs.SectionLemmas.
 
-(* For EVERY sequence of section creations, writes, overwrites and full or partial clears and every terminal
-   width >= 1: interpreting the emitted text and control codes on the terminal leaves the screen showing exactly
-   the current contents of all sections in creation order - wrapped lines included - with the cursor on the row
-   below; and every section's row count equals the rows its content occupies. *)
-Theorem screen_is_stack : forall w, 1 <= w -> forall ops,
-  let '(st, es) := srun true w [] ops in
-  feed w term_init es = screen w st /\ Forall (sec_ok w) st.
+(* For EVERY sequence of section creations, indentations, writes, overwrites and full or partial clears of good markup,
+   every terminal width >= 1 and every decorating formatter (any style table) whose style stack is empty: no call raises;
+   interpreting the emitted bytes - text, SGR sequences, cursor-up and erase codes - on the terminal leaves the screen
+   showing exactly the VISIBLE contents of all sections in creation order, indented and wrapped at the width, with the
+   cursor on the row below; every section's row count equals the rows its visible content occupies; every content line
+   is good; the style stack is empty again. *)
+Theorem screen_is_stack : forall w, 1 <= w -> forall f0 ops, is_ansi f0 -> f_stack f0 = [] ->
+  good_opsb (f_styles f0) ops = true ->
+  exists st f es, srun true w [] f0 ops = Ok (st, f, es) /\
+    feed w term_init es = screen w (f_styles f0) st /\ Forall (sec_ok w (f_styles f0)) st /\ fmt_ok (f_styles f0) f.
 Proof. exact screen_is_stack_lemma. Qed.
 Print Assumptions screen_is_stack.
 
-(* The row accounting of the code (math.ceil(len / width) or 1) is the number of rows the terminal uses. *)
+(* The special case of plain texts (no '<', backslash, ESC, tab) and indentation 0, as before the texts became markup:
+   for EVERY op sequence the screen is the raw content lines wrapped at the width, and every row count is theirs. *)
+Theorem screen_is_stack_plain : forall w, 1 <= w -> forall f0 ops, is_ansi f0 -> f_stack f0 = [] -> Forall plain_op ops ->
+  exists st f es, srun true w [] f0 ops = Ok (st, f, es) /\
+    feed w term_init es = plain_screen w st /\
+    Forall (fun s => sc_lines s = length (flat_map (fill w []) (sc_content s)) /\ sc_indent s = 0) st.
+Proof. exact screen_is_stack_plain_lemma. Qed.
+Print Assumptions screen_is_stack_plain.
+
+(* The row accounting of the code (math.ceil(len / width) or 1, of the visible text) is the number of rows the terminal uses. *)
 Theorem rows_accounting : forall w, 1 <= w -> forall line, count_rows w line = length (fill w [] line).
 Proof. exact count_rows_fill. Qed.
 Print Assumptions rows_accounting.
 
+(* One line of good markup: remove_format gives its visible text, format gives the same text under SGR sequences, the
+   rows counted for it are those of the visible text - and the style stack stays empty each time. *)
+Theorem good_line_shown : forall w sty f l, fmt_ok sty f -> good_lineb sty l = true ->
+  (exists f', remove_format f l = Ok (f', vis sty l) /\ fmt_ok sty f') /\
+  (exists f' a, format f l None = Ok (f', a) /\ fmt_ok sty f' /\ strip_sgr a = vis sty l) /\
+  (exists f', measure w f [l] 0 = Ok (f', count_rows w (vis sty l)) /\ fmt_ok sty f').
+Proof. exact good_line_shown_lemma. Qed.
+Print Assumptions good_line_shown.
+
+(* The terminal makes of decorated bytes what it makes of the text under the SGR sequences: they occupy no cell. *)
+Theorem sgr_occupies_no_cell : forall w t s, feed w t (emits_of_ansi s) = feed w t (emits_of_text (strip_sgr s)).
+Proof. exact feed_ansi. Qed.
+Print Assumptions sgr_occupies_no_cell.
+
 (* On an output without ANSI support the same operations emit no control code, only text and line breaks. *)
-Theorem plain_degrades : forall w ops st, forallb plain_emit (snd (srun false w st ops)) = true.
+Theorem plain_degrades : forall w ops st f r, srun false w st f ops = Ok r -> forallb plain_emit (snd r) = true.
 Proof. exact plain_degrades_lemma. Qed.
 Print Assumptions plain_degrades.
 
+(* ---- instances ---- *)
+Definition demo_f : formatter := match new_formatter (FAnsi true) [] with Ok f => f | Err _ => {| f_kind := FAnsi true; f_styles := []; f_stack := [] |} end.
+Definition t_info : str := [60;105;110;102;111;62;49;50;51;52;53;60;47;105;110;102;111;62;54;55;56;57;48]%N.   (* <info>12345</info>67890 *)
+Definition t_inline : str := [112;60;102;103;61;114;101;100;62;113;60;47;62;114;32;97;92;60;98]%N.             (* p<fg=red>q</>r a\<b *)
+(* raw length 23 at width 10: ONE row, the screen shows 1234567890 *)
+Example c15_tagged_one_row :
+  match srun true 10 [] demo_f [SCreate; SWrite 0 t_info true] with
+  | Ok (st, _, es) => map sc_lines st = [1] /\ rows (feed 10 term_init es) = [[49;50;51;52;53;54;55;56;57;48]%N; []]
+  | Err _ => False
+  end.
+Proof. vm_compute. split; reflexivity. Qed.
+(* the premises of screen_is_stack are satisfiable: tags, an inline style, an escaped '<', indentation, a partial clear *)
+Example c15_good_ops :
+  good_opsb (f_styles demo_f)
+    [SCreate; SCreate; SIndent 0 3; SWrite 0 t_info true; SWrite 1 t_inline true; SOverwrite 0 t_inline; SClear 1 (Some 1)] = true
+  /\ is_ansi demo_f /\ f_stack demo_f = [].
+Proof. vm_compute. repeat split. Qed.
 Example c15_wrapped_partial_clear :
   let ops := [SCreate; SCreate; SWrite 0 (repeat 97%N 25) true; SWrite 1 [98; 98]%N true; SWrite 0 [99]%N true; SClear 0 (Some 2)] in
-  let '(st, es) := srun true 10 [] ops in rows (feed 10 term_init es) = [[98; 98]%N; []].
+  match srun true 10 [] demo_f ops with Ok (st, _, es) => rows (feed 10 term_init es) = [[98; 98]%N; []] | Err _ => False end.
 Proof. vm_compute. reflexivity. Qed.
+(* an EMPTY line under an indentation wider than the terminal (12 at width 10) is one row: add_content, like
+   Output.write, gives an empty line no blanks (before /repo c052dce it kept 12 blanks for it, counted 2 rows, and the
+   clear erased "top" of the section above).  Inside the class of screen_is_stack; the screen equals the stack. *)
+Example c15_indented_empty_line_too_wide :
+  let ops := [SCreate; SCreate; SWrite 0 [116;111;112]%N true; SIndent 1 12; SWrite 1 [] true; SWrite 1 [121]%N true; SClear 1 (Some 1)] in
+  match srun true 10 [] demo_f ops with
+  | Ok (st, _, es) => feed 10 term_init es = screen 10 (f_styles demo_f) st
+                      /\ stacked 10 (f_styles demo_f) st = [[116;111;112]%N; []]
+                      /\ map sc_lines st = [1; 1] /\ good_opsb (f_styles demo_f) ops = true
+  | Err _ => False
+  end.
+Proof. vm_compute. repeat split. Qed.
